@@ -310,6 +310,18 @@ Theorem C02_h2_cut_never_complete : forall fs k after cl,
 Proof. exact h2_cut_never_complete. Qed.
 Print Assumptions C02_h2_cut_never_complete.
 
+(* An HTTP/3 stream that ends (FIN) INSIDE a DATA frame is never delivered as complete: for
+   every sequence of complete DATA frames followed by a frame of which only a part arrived,
+   with or without a declared length, and whenever the FIN reached the client (together with
+   the last bytes or later: the same event sequence), the read ends with an error; without a
+   declared length the caller has received exactly the bytes that arrived. *)
+Theorem C02_h3_cut_never_complete : forall parts declared partial rem,
+  (N.of_nat (length partial) < declared)%N ->
+  snd (h3_read true rem (h3_events_cut parts declared partial)) <> H3Clean /\
+  (rem = None -> fst (h3_read true rem (h3_events_cut parts declared partial)) = concat parts ++ partial).
+Proof. exact h3_cut_never_complete. Qed.
+Print Assumptions C02_h3_cut_never_complete.
+
 (* lower-case names on the wire, the same canonical multimap for the caller *)
 Theorem C02_h2_header_collect : forall fs,
   token_names fs -> none_named K_TRAILER fs -> h2_header (lower_fields fs) = (collect fs, []).
